@@ -432,6 +432,38 @@ def linesOf (cs : List Call) : List Line := cs.flatMap callLines
 /-- `Target::into_string` after the given `append` calls. -/
 def render (esc : Bool) (cs : List Call) : Str := (linesOf cs).flatMap (renderLine esc)
 
+/-! ### The repair of the repeated `# HELP` / `# TYPE` lines (`group = true`)
+
+`Target` as written emits the two header lines on every `append`, and the sources call `append` once per router
+(and once per message type) for one metric. The repair keeps one block per metric name, in the order in which the
+names first appear: the header of the first `append` of that name, then the samples of every `append` of that
+name in call order. -/
+
+/-- The distinct elements in order of first appearance. -/
+def firstNames : List Str → List Str
+  | [] => []
+  | x :: xs => x :: (firstNames xs).filter (fun y => y != x)
+
+/-- The calls the format supports (`supports_type`). -/
+def liveCalls (cs : List Call) : List Call := cs.filter (fun c => c.metric.mtype != .text)
+
+def headName (c : Call) : Str := fullName c.metric none
+
+def blockOf (live : List Call) (n : Str) : List Line :=
+  match live.find? (fun c => headName c == n) with
+  | none => []
+  | some c => .help n c.metric.help :: .type n c.metric.mtype ::
+      (live.filter (fun c => headName c == n)).flatMap (fun c => c.recs.map (recLine c.metric c.unitName))
+
+def groupLines (cs : List Call) : List Line :=
+  (firstNames ((liveCalls cs).map headName)).flatMap (blockOf (liveCalls cs))
+
+/-- The lines of the exposition for either variant. -/
+def linesOfV (group : Bool) (cs : List Call) : List Line :=
+  match group with | true => groupLines cs | false => linesOf cs
+
+def renderV (esc group : Bool) (cs : List Call) : Str := (linesOfV group cs).flatMap (renderLine esc)
+
 /-! ### A parser of the text exposition format (the grammar the output is checked against)
 
 ```
@@ -571,5 +603,29 @@ def parse (s : Str) : Option (List Line) := parseLines s.length s
 def helpNames (ls : List Line) : List Str := ls.filterMap (fun | .help n _ => some n | _ => none)
 def typeNames (ls : List Line) : List Str := ls.filterMap (fun | .type n _ => some n | _ => none)
 def UniqueMeta (ls : List Line) : Prop := (helpNames ls).Nodup ∧ (typeNames ls).Nodup
+
+/-! ### Well-formed lines: what the *programmer-chosen* parts must satisfy (metric names, label names, the help text,
+the printed number). Label **values** are unconstrained. -/
+
+def Line.wf : Line → Bool
+  | .help n d => isName n && docOK d && d.all notNl
+  | .type n t => isName n && t != .text
+  | .sample n ls v => isName n && isNumber v &&
+      (match ls with | none => true | some l => l.all (fun p => isLName p.1))
+
+/-- A call whose metric name (with unit and each suffix) is a metric name, whose help text needs no escaping, whose
+    label names are label names and whose values print as integers. Unit name and label values: anything. -/
+def Call.wf (c : Call) : Bool :=
+  isName (fullName c.metric none) && docOK c.metric.help && c.metric.help.all notNl &&
+  c.recs.all (fun r => isName (fullName c.metric r.suffix) && isNumber r.value &&
+    (match r.labels with | none => true | some l => l.all (fun p => isLName p.1)))
+
+/-- A string that needs no escaping inside a quoted label value. -/
+def clean (v : Str) : Bool := v.all (fun c => c != '\\' && c != '"' && c != '\n')
+
+/-- No unit name and no label value of the calls needs escaping. -/
+def Call.clean (c : Call) : Bool :=
+  (match c.unitName with | none => true | some u => ConnMetrics.clean u) &&
+  c.recs.all (fun r => match r.labels with | none => true | some l => l.all (fun p => ConnMetrics.clean p.2))
 
 end Rotonda.ConnMetrics
